@@ -792,7 +792,11 @@ pub fn c04(ctx: &mut Ctx) -> String {
             if i < 1 && which == 0 {
                 sample_case(ctx, &t, fam, &cfg);
             }
-            let case = solve_case(&t, &cfg, &["sampled_rate"]);
+            let case = if which == 0 && i % 4 == 0 && t.size() <= 120 {
+                solve_case(&t, &cfg, &["sampled_rate", "corr"])
+            } else {
+                solve_case(&t, &cfg, &["sampled_rate"])
+            };
             case_solve(ctx, &case);
             if let Outcome::Ok(r) = run_lib(&g, &cfg) {
                 if let Ok((reg, _, _)) = true_regret(&g, &r.named) {
@@ -814,6 +818,9 @@ pub fn c04(ctx: &mut Ctx) -> String {
         let cfg = Cfg { method: method.into(), params, iters: t_hi, thr: 0.0, threads: 1, target: None, seed };
         ctx.stat("family_lottery");
         case_solve(ctx, &solve_case(&t, &cfg, &["sampled_rate"]));
+        // and the same draws through the model the pathwise theorems are about (short budget)
+        let cfg = Cfg { iters: 25, ..cfg };
+        case_solve(ctx, &solve_case(&t, &cfg, &["corr"]));
     }
     let med = |v: &mut Vec<f64>| -> f64 {
         v.sort_by(|a, b| a.partial_cmp(b).unwrap());
@@ -998,6 +1005,15 @@ pub fn c08(ctx: &mut Ctx) -> String {
             }
             case_solve(ctx, &solve_case(&t, &cfg, &["corr", "draws"]));
         }
+        // the documented iterates do not depend on the thread count either
+        if i % 3 == 0 {
+            let threads = *ctx.rng.pick(&[2usize, 3, 4, 8]);
+            for tt in [2u64, 5, 13] {
+                let cfg = Cfg { method: method.into(), params, iters: tt, thr: 0.0, threads, target: None, seed };
+                ctx.stat("multi_threaded_trajectories");
+                case_solve(ctx, &solve_case(&t, &cfg, &["corr"]));
+            }
+        }
         // None means the documented default
         if i % 10 == 0 {
             let g = build(&t).unwrap();
@@ -1011,7 +1027,7 @@ pub fn c08(ctx: &mut Ctx) -> String {
             }
         }
     }
-    "single-threaded solves of all three methods under the keyed draw hook: games from the mixed stream (generic and tie-rich integer payoffs) x presets and custom tuples incl. 0 and +-inf x every prefix budget in {0,1,2,3,5,8,13,21,34,50}; returned strategies, both bounds and the draw log against the model; preset tuples and the default through the public fields".to_string()
+    "solves of all three methods under the keyed draw hook (single-threaded on the whole grid, 2/3/4/8 threads on three budgets for every third game): games from the mixed stream (generic and tie-rich integer payoffs) x presets and custom tuples incl. 0 and +-inf x every prefix budget in {0,1,2,3,5,8,13,21,34,50}; returned strategies, both bounds and the draw log against the model; preset tuples and the default through the public fields".to_string()
 }
 
 // ---------------------------------------------------------------------------------------------
